@@ -8,6 +8,7 @@ import (
 	"fmt"
 	"go/token"
 	"go/types"
+	"os"
 	"sort"
 	"strings"
 
@@ -86,6 +87,10 @@ type nilEngine struct {
 	// siteOK: for every Store / MapUpdate of a nillable value in an analysed function: the stored value was
 	// non-nil at that site in the previous round (optimistic fixpoint, like the summaries)
 	siteOK map[ssa.Instruction]bool
+	// siteFieldOK: for every whole-struct Store: the nillable fields whose source cell was known non-nil there
+	siteFieldOK map[ssa.Instruction]map[string]bool
+	// nilMods: per function, the cell classes it (or a callee) may write a possibly-nil value to
+	nilMods map[*ssa.Function]map[string]bool
 	// siteKeys: for every MapUpdate m2[k] = v, the canonical names of the maps M for which "k is a key of M"
 	// was known at that site (used for the key-subset lemma)
 	siteKeys map[ssa.Instruction]map[string]bool
@@ -105,7 +110,7 @@ func newNilEngine(c *Ctx, scope []*ssa.Function, roots []*ssa.Function) *nilEngi
 		paramNN: map[*ssa.Parameter]bool{}, paramDyn: map[*ssa.Parameter]bool{}, paramCell: map[string]bool{}, cellWant: map[string]bool{},
 		retNN: map[*ssa.Function][]bool{}, retPair: map[*ssa.Function][]int{}, predNN: map[*ssa.Function][]int{},
 		entryNN: map[*ssa.Parameter]bool{}, roots: map[*ssa.Function]bool{}, mapValsNN: map[ssa.Value]int{}, structInv: map[string]int{},
-		byCtr: map[*ssa.Function]string{}, siteOK: map[ssa.Instruction]bool{}, siteKeys: map[ssa.Instruction]map[string]bool{}, assumed: map[string]string{}, used: map[string]int{}}
+		byCtr: map[*ssa.Function]string{}, siteOK: map[ssa.Instruction]bool{}, siteFieldOK: map[ssa.Instruction]map[string]bool{}, siteKeys: map[ssa.Instruction]map[string]bool{}, assumed: map[string]string{}, used: map[string]int{}}
 	e.mods = c.P.modSets()
 	e.extTypes = c.P.extensionTypes()
 	for _, r := range roots {
@@ -194,7 +199,11 @@ func (e *nilEngine) solve() {
 		for _, b := range f.Blocks {
 			for _, in := range b.Instrs {
 				if fa, ok := in.(*ssa.FieldAddr); ok {
-					if prm := paramBehind(fa.X); prm != nil && isNillable(deref(fa.Type())) {
+					prm := paramBehind(fa.X)
+					if prm == nil {
+						prm = structParamSpill(fa.X)
+					}
+					if prm != nil && isNillable(deref(fa.Type())) {
 						k := f.String() + "|" + prm.Name() + "." + fieldName(prm.Type(), fa.Field)
 						e.cellWant[k] = true
 						e.paramCell[k] = true
@@ -255,6 +264,7 @@ func (e *nilEngine) solve() {
 		newPair := map[*ssa.Function][]int{}
 		newPred := map[*ssa.Function][]int{}
 		newSite := map[ssa.Instruction]bool{}
+		newFieldOK := map[ssa.Instruction]map[string]bool{}
 		e.mapValsNN = map[ssa.Value]int{}
 		e.structInv = map[string]int{}
 		for _, f := range e.all {
@@ -278,6 +288,18 @@ func (e *nilEngine) solve() {
 				case *ssa.Store:
 					if isNillable(x.Val.Type()) {
 						newSite[x] = e.nonNil(x.Val, st, in, 0)
+					}
+					if sst, isStruct := x.Val.Type().Underlying().(*types.Struct); isStruct {
+						fo := map[string]bool{}
+						if ld, ok := x.Val.(*ssa.UnOp); ok && ld.Op == token.MUL {
+							src := canon(ld.X)
+							for i := 0; i < sst.NumFields(); i++ {
+								if _, has := st["NNC:"+src+"."+sst.Field(i).Name()]; has {
+									fo[sst.Field(i).Name()] = true
+								}
+							}
+						}
+						newFieldOK[x] = fo
 					}
 				case ssa.CallInstruction:
 					args := allArgs(x)
@@ -306,7 +328,13 @@ func (e *nilEngine) solve() {
 								for k := range e.cellWant {
 									if strings.HasPrefix(k, pre) && newCell[k] {
 										field := strings.TrimPrefix(k, pre)
-										if !e.cellNonNilExpr(canon(a)+"."+field, a, field, st, in) {
+										base := canon(a)
+										if ld, isLd := a.(*ssa.UnOp); isLd && ld.Op == token.MUL && structOf(a.Type()) != nil {
+											if _, isPtr := a.Type().Underlying().(*types.Pointer); !isPtr {
+												base = canon(ld.X) // a struct passed by value: its fields are the cells of the loaded object
+											}
+										}
+										if !e.cellNonNilExpr(base+"."+field, a, field, st, in) {
 											newCell[k] = false
 										}
 									}
@@ -386,10 +414,18 @@ func (e *nilEngine) solve() {
 			}
 		}
 		e.paramDyn = newDyn
+		if fmt.Sprint(newFieldOK) != fmt.Sprint(e.siteFieldOK) {
+			changed = true
+		}
+		e.siteFieldOK = newFieldOK
 		e.siteOK = newSite
+		e.computeNilMods()
 		e.paramNN, e.paramCell, e.retNN, e.retPair, e.predNN = newParam, newCell, newRet, newPair, newPred
 		if !changed {
 			e.c.Stats["E1 summary rounds"] = round + 1
+			if os.Getenv("GTFSDEBUGFN") != "" {
+				e.debugSummaries(os.Getenv("GTFSDEBUGFN"))
+			}
 			break
 		}
 	}
@@ -507,7 +543,20 @@ func (e *nilEngine) entryState(f *ssa.Function) fstate {
 			if pt != nil {
 				cls = typeName(pt) + "." + cell[i+1:]
 			}
-			st["NNC:"+cell] = []string{cls}
+			// a struct passed by value lives in its spill cell: the fact is about that cell's field
+			if pt != nil {
+				if _, isPtr := pt.Underlying().(*types.Pointer); !isPtr {
+					for _, prm := range f.Params {
+						if prm.Name() == cell[:i] {
+							if a := spillOf(prm); a != nil {
+								st["NNC:"+canon(a)+"."+cell[i+1:]] = []string{"=" + cls}
+							}
+						}
+					}
+					continue
+				}
+			}
+			st["NNC:"+cell] = []string{"=" + cls}
 		}
 	}
 	return st
@@ -729,7 +778,7 @@ func (e *nilEngine) assumeNonNil(v ssa.Value, st fstate) {
 	switch x := v.(type) {
 	case *ssa.UnOp:
 		if x.Op == token.MUL {
-			st["NNC:"+canon(x.X)] = append(memFields(x.X), storeCell(x.X))
+			st["NNC:"+canon(x.X)] = append(memFields(x.X), "="+storeCell(x.X))
 		}
 	case *ssa.MakeInterface:
 		e.assumeNonNil(x.X, st)
@@ -738,10 +787,16 @@ func (e *nilEngine) assumeNonNil(v ssa.Value, st fstate) {
 	}
 }
 
-func (e *nilEngine) killClass(st fstate, class string) {
+// Dependencies of a fact are cell classes. A dependency written "=C" is the fact's own cell: the fact says that this
+// cell (of class C) holds a non-nil value. A write of a non-nil value to some cell of class C cannot falsify it (it
+// either hits another cell or puts a non-nil value into this one); any other dependency is a cell on the access
+// path, and any write to its class may redirect the path.
+func (e *nilEngine) killClass(st fstate, class string) { e.killClassV(st, class, false) }
+
+func (e *nilEngine) killClassV(st fstate, class string, valueNonNil bool) {
 	for k, deps := range st {
 		for _, d := range deps {
-			if d == class {
+			if d == class || (!valueNonNil && d == "="+class) {
 				delete(st, k)
 				break
 			}
@@ -749,12 +804,22 @@ func (e *nilEngine) killClass(st fstate, class string) {
 	}
 }
 
-func (e *nilEngine) killByMod(st fstate, ms map[string]bool) {
-	if len(ms) == 0 {
+// killByMod: ms = classes the callee may write; nilms = classes it may write a possibly-nil value to.
+func (e *nilEngine) killByMod(st fstate, ms map[string]bool) { e.killByMod2(st, ms, ms) }
+
+func (e *nilEngine) killByMod2(st fstate, ms, nilms map[string]bool) {
+	if len(ms) == 0 && len(nilms) == 0 {
 		return
 	}
 	for k, deps := range st {
 		for _, d := range deps {
+			if strings.HasPrefix(d, "=") {
+				if modKills(nilms, d[1:]) {
+					delete(st, k)
+					break
+				}
+				continue
+			}
 			if modKills(ms, d) {
 				delete(st, k)
 				break
@@ -770,25 +835,46 @@ func (e *nilEngine) transfer(in ssa.Instruction, st fstate) {
 		if _, isAlloc := x.Addr.(*ssa.Alloc); isAlloc {
 			cls = "alloc:" + vid(x.Addr)
 		}
-		e.killClass(st, cls)
-		// whole-struct store: kills facts on all fields of the struct type; then copies the source's cell facts
-		if sst, isStruct := x.Val.Type().Underlying().(*types.Struct); isStruct {
-			tn := typeName(x.Val.Type())
-			for i := 0; i < sst.NumFields(); i++ {
-				e.killClass(st, tn+"."+sst.Field(i).Name())
-			}
-			if ld, ok := x.Val.(*ssa.UnOp); ok && ld.Op == token.MUL {
-				src := canon(ld.X)
-				dst := canon(x.Addr)
-				for k, deps := range st {
-					if strings.HasPrefix(k, "NNC:"+src+".") {
-						st["NNC:"+dst+"."+strings.TrimPrefix(k, "NNC:"+src+".")] = deps
-					}
+		if prm, isP := x.Val.(*ssa.Parameter); isP {
+			if a, isA := x.Addr.(*ssa.Alloc); isA && spillOf(prm) == a {
+				// spilling a by-value struct parameter into its fresh cell changes nothing that is known
+				if _, isStruct := x.Val.Type().Underlying().(*types.Struct); isStruct {
+					return
 				}
 			}
 		}
-		if isNillable(x.Val.Type()) && e.nonNil(x.Val, st, in, 0) {
-			deps := append(memFields(x.Addr), cls)
+		valNN := isNillable(x.Val.Type()) && e.nonNil(x.Val, st, in, 0)
+		e.killClassV(st, cls, valNN)
+		// whole-struct store: kills facts on all fields of the struct type (a field whose source cell is known non-nil
+		// is written with a non-nil value); then copies the source's cell facts
+		if sst, isStruct := x.Val.Type().Underlying().(*types.Struct); isStruct {
+			tn := typeName(x.Val.Type())
+			srcAddr := ""
+			if ld, ok := x.Val.(*ssa.UnOp); ok && ld.Op == token.MUL {
+				srcAddr = canon(ld.X)
+			}
+			copied := map[string][]string{}
+			if srcAddr != "" {
+				dst := canon(x.Addr)
+				for k, deps := range st {
+					if strings.HasPrefix(k, "NNC:"+srcAddr+".") {
+						copied["NNC:"+dst+"."+strings.TrimPrefix(k, "NNC:"+srcAddr+".")] = deps
+					}
+				}
+			}
+			for i := 0; i < sst.NumFields(); i++ {
+				fNN := false
+				if srcAddr != "" {
+					_, fNN = st["NNC:"+srcAddr+"."+sst.Field(i).Name()]
+				}
+				e.killClassV(st, tn+"."+sst.Field(i).Name(), fNN)
+			}
+			for k, deps := range copied {
+				st[k] = deps
+			}
+		}
+		if valNN {
+			deps := append(memFields(x.Addr), "="+cls)
 			st["NNC:"+canon(x.Addr)] = deps
 		}
 		// storing a pointer into a cell: what is known about the pointee's cells is known through the cell too
@@ -834,7 +920,11 @@ func (e *nilEngine) transfer(in ssa.Instruction, st fstate) {
 		}
 		for _, cal := range cs {
 			if e.p.fnIndex[cal] {
-				e.killByMod(st, e.mods[cal])
+				nm, ok := e.nilMods[cal]
+				if !ok {
+					nm = e.mods[cal]
+				}
+				e.killByMod2(st, e.mods[cal], nm)
 				// map deletions inside callees
 			} else {
 				name := cal.String()
@@ -972,8 +1062,17 @@ func (e *nilEngine) keyIn(m, k ssa.Value, st fstate) bool {
 	if fn == nil || hasDelete(fn, m) {
 		return false
 	}
-	if _, isMake := m.(*ssa.MakeMap); !isMake {
-		return false // the lemma needs the map's identity: a map created in this function
+	switch mm := m.(type) {
+	case *ssa.MakeMap:
+		// the map's identity is known: a map created in this function
+	case *ssa.Parameter:
+		// a map handed in by the caller: the same map value throughout this activation; its key set cannot shrink while
+		// this function runs if neither it nor anything it calls deletes from a map of that type
+		if e.deleteReachable(mm.Parent(), m.Type()) {
+			return false
+		}
+	default:
+		return false
 	}
 	return e.keyFrom(m, k, 0)
 }
@@ -994,9 +1093,14 @@ func hasDelete(fn *ssa.Function, m ssa.Value) bool {
 			switch x := r.(type) {
 			case *ssa.Lookup, *ssa.MapUpdate, *ssa.Range, *ssa.DebugRef:
 			case *ssa.Call:
-				if !isBuiltin(x, "len") {
-					return true
+				if isBuiltin(x, "len") {
+					continue
 				}
+				// handed to a module helper that only reads it (looks up, ranges, takes len; may hand it on likewise)
+				if readOnlyMapArg(x, m, 0) {
+					continue
+				}
+				return true
 			default:
 				return true
 			}
@@ -1794,4 +1898,268 @@ func (e *nilEngine) structFieldInvariant(t types.Type, idx int) bool {
 		e.structInv[key] = 2
 	}
 	return ok
+}
+
+// computeNilMods: for every analysed function the classes of cells it may leave holding nil: stores of values not
+// known non-nil at the store (siteOK / siteFieldOK of the current round), everything a non-analysed or external callee
+// may write, closed over callees. Used to keep "this cell is non-nil" facts across calls that only ever write
+// non-nil values to cells of that class.
+func (e *nilEngine) computeNilMods() {
+	analysed := map[*ssa.Function]bool{}
+	for _, f := range e.all {
+		analysed[f] = true
+	}
+	direct := map[*ssa.Function]map[string]bool{}
+	callees := map[*ssa.Function][]*ssa.Function{}
+	for _, fn := range e.p.ModFns {
+		if !analysed[fn] {
+			direct[fn] = e.mods[fn]
+			continue
+		}
+		ms := map[string]bool{}
+		for _, b := range fn.Blocks {
+			for _, in := range b.Instrs {
+				switch x := in.(type) {
+				case *ssa.Store:
+					if _, isAlloc := addrRoot(x.Addr).(*ssa.Alloc); isAlloc {
+						continue
+					}
+					if sst, isStruct := x.Val.Type().Underlying().(*types.Struct); isStruct {
+						tn := typeName(x.Val.Type())
+						for i := 0; i < sst.NumFields(); i++ {
+							if isNillable(sst.Field(i).Type()) && !e.siteFieldOK[x][sst.Field(i).Name()] {
+								ms[tn+"."+sst.Field(i).Name()] = true
+							}
+						}
+						// nested structs: be conservative
+						for i := 0; i < sst.NumFields(); i++ {
+							if _, nested := sst.Field(i).Type().Underlying().(*types.Struct); nested {
+								ms["type:"+typeName(sst.Field(i).Type())] = true
+							}
+						}
+						continue
+					}
+					if isNillable(x.Val.Type()) && !e.siteOK[x] {
+						ms[storeCell(x.Addr)] = true
+					}
+				case *ssa.MapUpdate:
+					if !e.siteOK[x] {
+						ms["map:"+x.Map.Type().Underlying().String()] = true
+					}
+				case ssa.CallInstruction:
+					cc := x.Common()
+					if bi, isB := cc.Value.(*ssa.Builtin); isB {
+						switch bi.Name() {
+						case "delete":
+							ms["map:"+cc.Args[0].Type().Underlying().String()] = true
+						case "copy":
+							if sl, ok := cc.Args[0].Type().Underlying().(*types.Slice); ok {
+								ms["elem:"+sl.Elem().String()] = true
+							}
+						}
+						continue
+					}
+					cs := e.p.Callees(x)
+					if len(cs) == 0 {
+						name := calleeName(x)
+						if name == "" {
+							ms["*"] = true
+						}
+						for _, w := range externalWrites(name, x) {
+							ms[w] = true
+						}
+						continue
+					}
+					for _, cal := range cs {
+						if e.p.fnIndex[cal] {
+							callees[fn] = append(callees[fn], cal)
+						} else {
+							name := cal.String()
+							if cc.IsInvoke() {
+								name = calleeName(x)
+							}
+							for _, w := range externalWrites(name, x) {
+								ms[w] = true
+							}
+						}
+					}
+				}
+			}
+		}
+		direct[fn] = ms
+	}
+	for changed := true; changed; {
+		changed = false
+		for fn, cs := range callees {
+			for _, cal := range cs {
+				for k := range direct[cal] {
+					if !direct[fn][k] {
+						if direct[fn] == nil {
+							direct[fn] = map[string]bool{}
+						}
+						direct[fn][k] = true
+						changed = true
+					}
+				}
+			}
+		}
+	}
+	e.nilMods = direct
+}
+
+func (e *nilEngine) debugSummaries(name string) {
+	for _, f := range e.all {
+		if !strings.Contains(f.String(), name) {
+			continue
+		}
+		debugf("summary %s: mods=%v nilMods=%v", f, keysOf(e.mods[f]), keysOf(e.nilMods[f]))
+		for k, v := range e.paramCell {
+			if strings.HasPrefix(k, f.String()+"|") {
+				debugf("  paramCell %s = %v", k, v)
+			}
+		}
+		for _, b := range f.Blocks {
+			for _, in := range b.Instrs {
+				if st, ok := in.(*ssa.Store); ok {
+					debugf("  store %s siteOK=%v fieldOK=%v", st, e.siteOK[st], e.siteFieldOK[st])
+				}
+			}
+		}
+	}
+}
+
+func keysOf(m map[string]bool) []string {
+	var out []string
+	for k := range m {
+		out = append(out, k)
+	}
+	sort.Strings(out)
+	return out
+}
+
+// spillOf: the local cell a by-value struct parameter is copied into at entry (nil if there is none or several).
+func spillOf(prm *ssa.Parameter) *ssa.Alloc {
+	var out *ssa.Alloc
+	if prm.Referrers() == nil {
+		return nil
+	}
+	for _, r := range *prm.Referrers() {
+		if st, ok := r.(*ssa.Store); ok && st.Val == ssa.Value(prm) {
+			a, isA := st.Addr.(*ssa.Alloc)
+			if !isA || out != nil || st.Block() != prm.Parent().Blocks[0] {
+				return nil
+			}
+			out = a
+		}
+	}
+	if out == nil {
+		return nil
+	}
+	// the cell is written only by that spill
+	for _, r := range *out.Referrers() {
+		if st, ok := r.(*ssa.Store); ok && st.Addr == ssa.Value(out) && st.Val != ssa.Value(prm) {
+			return nil
+		}
+	}
+	return out
+}
+
+// structParamSpill: v is the spill cell of a by-value struct parameter.
+func structParamSpill(v ssa.Value) *ssa.Parameter {
+	a, ok := v.(*ssa.Alloc)
+	if !ok {
+		return nil
+	}
+	for _, r := range *a.Referrers() {
+		if st, ok := r.(*ssa.Store); ok && st.Addr == ssa.Value(a) {
+			if prm, isP := st.Val.(*ssa.Parameter); isP && spillOf(prm) == a {
+				if _, isStruct := prm.Type().Underlying().(*types.Struct); isStruct {
+					return prm
+				}
+			}
+		}
+	}
+	return nil
+}
+
+// readOnlyMapArg: call passes map m to a statically known module function whose corresponding parameter is only
+// looked up / ranged over / measured (or passed on in the same way): the map's key set cannot shrink through it.
+func readOnlyMapArg(call *ssa.Call, m ssa.Value, d int) bool {
+	if d > 3 || call.Call.IsInvoke() {
+		return false
+	}
+	cal := call.Call.StaticCallee()
+	if cal == nil || len(cal.Blocks) == 0 || !strings.HasPrefix(fnPkgPath(cal), modPath) {
+		return false
+	}
+	for i, a := range call.Call.Args {
+		if a != m {
+			continue
+		}
+		if i >= len(cal.Params) {
+			return false
+		}
+		prm := cal.Params[i]
+		if prm.Referrers() == nil {
+			continue
+		}
+		for _, r := range *prm.Referrers() {
+			switch x := r.(type) {
+			case *ssa.Lookup, *ssa.Range, *ssa.DebugRef:
+			case *ssa.Call:
+				if isBuiltin(x, "len") {
+					continue
+				}
+				if !readOnlyMapArg(x, prm, d+1) {
+					return false
+				}
+			default:
+				return false
+			}
+		}
+	}
+	return true
+}
+
+// deleteReachable: fn, or a function it can call, deletes from (or clears) a map of type t.
+func (e *nilEngine) deleteReachable(fn *ssa.Function, t types.Type) bool {
+	seen := map[*ssa.Function]bool{}
+	var rec func(f *ssa.Function) bool
+	rec = func(f *ssa.Function) bool {
+		if seen[f] {
+			return false
+		}
+		seen[f] = true
+		for _, b := range f.Blocks {
+			for _, in := range b.Instrs {
+				ci, ok := in.(ssa.CallInstruction)
+				if !ok {
+					continue
+				}
+				cc := ci.Common()
+				if bi, isB := cc.Value.(*ssa.Builtin); isB {
+					if (bi.Name() == "delete" || bi.Name() == "clear") && len(cc.Args) > 0 && types.Identical(cc.Args[0].Type(), t) {
+						return true
+					}
+					continue
+				}
+				cs := e.p.Callees(ci)
+				if len(cs) == 0 && calleeName(ci) == "" {
+					return true // unresolved dynamic call
+				}
+				for _, cal := range cs {
+					if e.p.fnIndex[cal] && rec(cal) {
+						return true
+					}
+				}
+			}
+		}
+		for _, a := range f.AnonFuncs {
+			if rec(a) {
+				return true
+			}
+		}
+		return false
+	}
+	return rec(fn)
 }
